@@ -1,4 +1,5 @@
 #include "common.hpp"
+#include <signal.h>
 
 namespace vh {
 
@@ -170,7 +171,20 @@ static void on_exit_hook() { if (!g_ended) emit_crash("exit() called by code und
 extern "C" void __asan_on_error() { emit_crash("sanitizer report"); }
 void install_crash_handlers() {
   if (LOG.f) g_logfd = fileno(LOG.f);
-  for (int s : {SIGSEGV, SIGBUS, SIGFPE, SIGILL, SIGABRT}) signal(s, on_signal);
+#ifndef __SANITIZE_ADDRESS__
+  // handlers run on an alternate stack so that a stack overflow in the code under test still names its context
+  static char altstack[1 << 16];
+  stack_t ss; ss.ss_sp = altstack; ss.ss_size = sizeof altstack; ss.ss_flags = 0;
+  sigaltstack(&ss, nullptr);
+  for (int s : {SIGSEGV, SIGBUS, SIGFPE, SIGILL, SIGABRT}) {
+    struct sigaction sa; memset(&sa, 0, sizeof sa);
+    sa.sa_handler = on_signal; sa.sa_flags = SA_ONSTACK | SA_RESETHAND; sigemptyset(&sa.sa_mask);
+    sigaction(s, &sa, nullptr);
+  }
+#else
+  // under AddressSanitizer its own handlers report (stack overflow included) and call __asan_on_error
+  for (int s : {SIGFPE, SIGILL, SIGABRT}) signal(s, on_signal);
+#endif
   atexit(on_exit_hook);
 }
 void end_ok() { g_ended = 1; LOG.line("{\"t\":\"end\"}"); }
